@@ -569,7 +569,7 @@ class JinjaAnalyzer:
             str_buff += raw
             str_parts.append(raw)
 
-            if elem_type.endswith("_begin"):
+            if elem_type.endswith("_begin") or elem_type == "raw_end":
                 self.handle_left_whitespace_stripping(raw, block_idx)
 
             raw_slice_info: RawSliceInfo = self.make_raw_slice_info(None, None)
